@@ -19,8 +19,8 @@ const oprec = 300
 
 type bvec [3]*big.Float
 
-func bnew() *big.Float           { return new(big.Float).SetPrec(oprec) }
-func bf(x float64) *big.Float    { return new(big.Float).SetPrec(oprec).SetFloat64(x) }
+func bnew() *big.Float              { return new(big.Float).SetPrec(oprec) }
+func bf(x float64) *big.Float       { return new(big.Float).SetPrec(oprec).SetFloat64(x) }
 func bcopy(x *big.Float) *big.Float { return new(big.Float).SetPrec(oprec).Set(x) }
 
 func bvFrom(x [3]float64) bvec { return bvec{bf(x[0]), bf(x[1]), bf(x[2])} }
@@ -200,13 +200,17 @@ func oFaceUV(f int, u, v float64) [3]float64 {
 }
 
 type quad struct {
-	cf [4][3]float64 // corners, CCW in the (u,v) plane: (lo,lo) (hi,lo) (hi,hi) (lo,hi)
-	c  [4]bvec
-	n  [4]bvec // inward normal of side k = (c[k], c[k+1])
+	face int           // the cube face and the uv bounds uLo uHi vLo vHi the quad was built from
+	uv   [4]float64    //
+	anti bool          // true for the antipodal image
+	cf   [4][3]float64 // corners, CCW in the (u,v) plane: (lo,lo) (hi,lo) (hi,hi) (lo,hi)
+	c    [4]bvec
+	n    [4]bvec // inward normal of side k = (c[k], c[k+1])
 }
 
 func cellQuad(f int, uLo, uHi, vLo, vHi float64) quad {
 	var q quad
+	q.face, q.uv = f, [4]float64{uLo, uHi, vLo, vHi}
 	q.cf = [4][3]float64{oFaceUV(f, uLo, vLo), oFaceUV(f, uHi, vLo), oFaceUV(f, uHi, vHi), oFaceUV(f, uLo, vHi)}
 	for k := 0; k < 4; k++ {
 		q.c[k] = bvFrom(q.cf[k])
@@ -239,6 +243,7 @@ func cellQuad(f int, uLo, uHi, vLo, vHi float64) quad {
 
 func (q quad) antipode() quad {
 	var r quad
+	r.face, r.uv, r.anti = q.face, q.uv, !q.anti
 	for k := 0; k < 4; k++ {
 		r.cf[k] = [3]float64{-q.cf[k][0], -q.cf[k][1], -q.cf[k][2]}
 		r.c[k] = q.c[k].neg()
@@ -368,14 +373,14 @@ func angleOf(d2 *big.Float) float64 {
 
 type v3 [3]float64
 
-func (a v3) add(b v3) v3       { return v3{a[0] + b[0], a[1] + b[1], a[2] + b[2]} }
-func (a v3) mul(s float64) v3  { return v3{a[0] * s, a[1] * s, a[2] * s} }
-func (a v3) dot(b v3) float64  { return a[0]*b[0] + a[1]*b[1] + a[2]*b[2] }
+func (a v3) add(b v3) v3      { return v3{a[0] + b[0], a[1] + b[1], a[2] + b[2]} }
+func (a v3) mul(s float64) v3 { return v3{a[0] * s, a[1] * s, a[2] * s} }
+func (a v3) dot(b v3) float64 { return a[0]*b[0] + a[1]*b[1] + a[2]*b[2] }
 func (a v3) cross(b v3) v3 {
 	return v3{a[1]*b[2] - a[2]*b[1], a[2]*b[0] - a[0]*b[2], a[0]*b[1] - a[1]*b[0]}
 }
-func (a v3) norm() float64 { return math.Sqrt(a.dot(a)) }
-func vangle(a, b v3) float64 { return math.Atan2(a.cross(b).norm(), a.dot(b)) }
+func (a v3) norm() float64       { return math.Sqrt(a.dot(a)) }
+func vangle(a, b v3) float64     { return math.Atan2(a.cross(b).norm(), a.dot(b)) }
 func lerp(a, b v3, t float64) v3 { return a.mul(1 - t).add(b.mul(t)) }
 
 // opt1 optimises f over [0,1] by n+1 samples followed by golden-section refinement
@@ -407,24 +412,22 @@ func opt1(f func(float64) float64, n int, sign float64) float64 {
 	return sign * best
 }
 
-// fInside: float64 version of the inside test with the given corners (CCW) and sense.
-func fInside(cf [4][3]float64, sense float64, p v3) bool {
-	for k := 0; k < 4; k++ {
-		n := v3(cf[k]).cross(v3(cf[(k+1)&3]))
-		if sense*n.dot(p) < 0 {
-			return false
-		}
+// fInside: float64 inside test, done in the (u,v) plane of the face so that it stays
+// meaningful for cells as small as 1e-9 (used only by the sampling cross-check).
+func (q quad) fInside(p v3) bool {
+	if q.anti {
+		p = p.mul(-1)
 	}
-	return true
-}
-
-// sense of a quad: +1 when c[k] x c[k+1] points inward, -1 otherwise (antipodal image).
-func (q quad) sense() float64 {
-	n := v3(q.cf[0]).cross(v3(q.cf[1]))
-	if n.dot(v3(q.cf[2])) >= 0 {
-		return 1
+	w0 := v3(oFaceUV(q.face, 0, 0))
+	u1 := v3(oFaceUV(q.face, 1, 0))
+	v1 := v3(oFaceUV(q.face, 0, 1))
+	w := p.dot(w0)
+	if !(w > 0) {
+		return false
 	}
-	return -1
+	u := p.dot(u1.add(w0.mul(-1))) / w
+	v := p.dot(v1.add(w0.mul(-1))) / w
+	return q.uv[0] <= u && u <= q.uv[1] && q.uv[2] <= v && v <= q.uv[3]
 }
 
 // target as a sampled set: a point, an arc, or the boundary of a quad
@@ -467,23 +470,21 @@ func sampledExt(q quad, t starget, sign float64) float64 {
 		}
 		return math.Pi
 	}
-	qs := q.sense()
 	// (antipodal) target samples inside the cell, or cell corners inside the (antipodal) target
 	switch t.kind {
 	case 0:
-		if fInside(q.cf, qs, flip(t.a)) {
+		if q.fInside(flip(t.a)) {
 			return zero()
 		}
 	case 1:
 		for i := 0; i <= 64; i++ {
-			if fInside(q.cf, qs, flip(lerp(t.a, t.b, float64(i)/64))) {
+			if q.fInside(flip(lerp(t.a, t.b, float64(i)/64))) {
 				return zero()
 			}
 		}
 	case 2:
-		ts := t.q.sense()
 		for k := 0; k < 4; k++ {
-			if fInside(q.cf, qs, flip(v3(t.q.cf[k]))) || fInside(t.q.cf, ts, flip(v3(q.cf[k]))) {
+			if q.fInside(flip(v3(t.q.cf[k]))) || t.q.fInside(flip(v3(q.cf[k]))) {
 				return zero()
 			}
 		}
